@@ -1,7 +1,7 @@
 SPECIFICATION Spec
 CONSTANTS
   MaxVariants = 1
-  MaxFields = 2
+  MaxFields = 3
   VMenu = {"none", "ren", "hint_tuple", "hint_struct", "hint_unit", "hint_tuple_ded"}
   FMenu = {"none", "ren", "expr", "renexpr", "swap", "swapexpr", "ghostd"}
   VGs = {0, 1}
